@@ -7,6 +7,7 @@ import (
 	"os"
 
 	"verif/harness/ribhist"
+	"verif/harness/sesshist"
 	"verif/report"
 )
 
@@ -20,6 +21,9 @@ var runners = map[string]runner{
 	"C02": {"model_checking", ribhist.RunC02},
 	"C03": {"model_checking", ribhist.RunC03},
 	"C16": {"model_checking", ribhist.RunC16},
+	"C04": {"model_checking", sesshist.RunC04},
+	"C05": {"model_checking", sesshist.RunC05},
+	"C06": {"model_checking", sesshist.RunC06},
 }
 
 func main() {
